@@ -55,3 +55,7 @@ pub fn check_valid_utf8(val: &[u8]) -> Result<()> {
         Err(e) => Err(general_err!("encountered non UTF-8 data: {}", e)),
     }
 }
+
+#[cfg(kani)]
+#[path = "/verif/kani/parquet/util/utf8.rs"]
+mod verif_kani;
